@@ -1201,6 +1201,17 @@ if __name__ == "__main__":
 @rule("R-RESAVE", 35, "a loaded object holds every image element in the field its save writes it from "
                       "(otherwise saving a loaded object cannot reproduce the image)")
 def r_resave(db, rep):
+    _resave(db, rep, False)
+
+
+@rule("R-RESAVE-SCALAR", 35, "R-RESAVE restricted to scalar header values (counts, sizes, widths): the value read from the image is the value "
+                             "the loaded object keeps in that field - a loader that adjusts it afterwards answers from a different geometry "
+                             "than the object that was saved")
+def r_resave_scalar(db, rep):
+    _resave(db, rep, True)
+
+
+def _resave(db, rep, scalar_only):
     pairs = [(w, r) for w, r in find_pairs(db) if not is_dispatcher(db, r)]
     cone = mirror_cone(db, pairs)
     for w, r in pairs:
@@ -1238,6 +1249,8 @@ def r_resave(db, rep):
                 continue
             F = src[1]
             if db.field(w.rec, F) is None:
+                continue
+            if scalar_only and not (wi.kind == "bytes" and wi.scalar):
                 continue
             rep.ob()
             tgt = getattr(ri, "target", None)
@@ -1583,3 +1596,28 @@ def r_initextent(db, rep):
                                      c.qn, w.rec, ap[1], canon(ext), covered, ve, {canon(k): v for k, v in val.items()}, w.qn), c.qn)
                         break
     rep.notes.append("%d allocations whose writes are not all whole-range writes (coverage undecided)" % undecided)
+
+
+_SAVED_ARR = {}
+
+
+def saved_array_fields(db):
+    """{record: {field names}} of pointer fields that the record's save writes out as arrays."""
+    if id(db) in _SAVED_ARR:
+        return _SAVED_ARR[id(db)]
+    out = {}
+    for w, r in find_pairs(db):
+        if not w.rec or is_dispatcher(db, r):
+            continue
+        try:
+            items = SeqBuilder(db, w, "w", nosubst=True).run()
+        except Exception:
+            continue
+        for it in flat_items(items):
+            if it.kind == "bytes" and not it.scalar and getattr(it, "ptr", None) is not None:
+                p = access_path(w, it.ptr)
+                if p is not None and len(p) == 2 and p[0] == "this":
+                    out.setdefault(w.rec, set()).add(p[1])
+    _SAVED_ARR.clear()
+    _SAVED_ARR[id(db)] = out
+    return out
